@@ -106,7 +106,8 @@ MODEL_TARGETS = [
     "PydraModel.DriverUtil",
 ]
 
-F3 = ("x", "y", "z")
+F3 = ("x", "y", "z")  # the fields the random generators draw from
+F5 = wfstate.FIELDS  # all fields of the encoder task, in the task's field order (wide fan-ins use u and v too)
 CORPUS = core.VERIF / "corpus" / "wfstate"
 
 # --------------------------------------------------------------------------------------------------------------------
@@ -114,7 +115,7 @@ CORPUS = core.VERIF / "corpus" / "wfstate"
 
 
 def _lazy_ups(nd):
-    return [(f, nd["in"][f]["n"]) for f in F3 if f in nd["in"] and "n" in nd["in"][f]]
+    return [(f, nd["in"][f]["n"]) for f in F5 if f in nd["in"] and "n" in nd["in"][f]]
 
 
 def analyse(case) -> dict:
@@ -306,12 +307,85 @@ def _wiring(rng, shape: str, n: int) -> list[dict[str, str]]:
     return w
 
 
-def gen_case(rng, p_comb: float = 0.3, max_jobs: int = 40, p_dense: float = 0.5) -> dict:
+def gen_case(rng, p_comb: float = 0.3, max_jobs: int = 40, p_dense: float = 0.45, p_wide: float = 0.15) -> dict:
+    r = rng.random()
+    if r < p_wide:
+        return _gen_wide(rng)  # has its own job budget (24–48 jobs at the fan-in are the point)
     for _ in range(50):
-        c = _gen_dense(rng) if rng.random() < p_dense else _gen_case(rng, p_comb)
+        c = _gen_dense(rng) if rng.random() < p_dense / (1 - p_wide) else _gen_case(rng, p_comb)
         if _spec_jobs(c) <= max_jobs:
             return c
     return c
+
+
+def _gen_wide(rng) -> dict:
+    """The wide stream: a node fed by THREE or FOUR independently split upstream nodes (no shared origins: inside the proved
+    class) whose states have PAIRWISE DIFFERENT sizes, in every order of the connected fields — `State.prepare_inputs`
+    builds the outer product of the upstream index ranges one factor at a time, and only ≥ 3 factors of different sizes
+    tell the factors apart.  With and without an own splitter on the consuming node (fields u, v make room for it), with
+    the first upstream feeding two fields (zipped by the code: in the class), optionally with one upstream reached through
+    a pass-through node, an outer own splitter on a root, or a combiner over one inherited axis."""
+    k = rng.choice([3, 3, 3, 4])
+    own = rng.random() < 0.5
+    sizes = rng.sample([1, 2, 3] if k == 3 else [1, 2, 3, 4], k)  # pairwise different, in random order
+    counter = [0]
+
+    def lst(n):
+        base = counter[0]
+        counter[0] += 10
+        return [base + i for i in range(n)]
+
+    nodes, ups = [], []
+    via = rng.randrange(k) if (k == 3 and rng.random() < 0.3) else None  # this upstream is reached through a pass-through node
+    for j in range(k):
+        name = f"N{len(nodes)}"
+        f = rng.choice(F3)
+        if k == 3 and sizes[j] == 2 and rng.random() < 0.25:
+            g = rng.choice([h for h in F3 if h != f])
+            nd = {"name": name, "in": {f: {"l": lst(2)}, g: {"l": lst(1)}}, "split": ["outer", f, g], "combine": []}
+        else:
+            nd = {"name": name, "in": {f: {"l": lst(sizes[j])}}, "split": [f], "combine": []}
+            if rng.random() < 0.2:
+                nd["in"][f]["w"] = 1
+        nodes.append(nd)
+        if via == j:
+            p = {"name": f"N{len(nodes)}", "in": {rng.choice(F3): {"n": name}}, "split": None, "combine": [], "wf": rng.random() < 0.2}
+            nodes.append(p)
+            ups.append(p["name"])
+        else:
+            ups.append(name)
+    fields = list(F5)
+    rng.shuffle(fields)
+    ins = {}
+    order = list(ups)
+    rng.shuffle(order)  # which upstream sits on which field: every order of the factors
+    for u in order:
+        ins[fields.pop()] = {"n": u}
+    split = None
+    if own:
+        if len(fields) >= 2 and rng.random() < 0.35:
+            f, g = fields.pop(), fields.pop()
+            ins[f], ins[g] = {"l": lst(2)}, {"l": lst(1)}
+            split = ["outer", f, g]
+        else:
+            f = fields.pop()
+            ins[f] = {"l": lst(rng.choice([1, 2, 2]))}
+            split = [f]
+    if fields and rng.random() < 0.2:
+        first = min((f for f in ins if "n" in ins[f]), key=F5.index)
+        ins[fields.pop()] = {"n": ins[first]["n"]}  # the FIRST upstream (in field order) through two fields
+    for f in fields:
+        if rng.random() < 0.3:
+            ins[f] = {"c": rng.choice([0, 5, "s"])}
+    name = f"N{len(nodes)}"
+    nd = {"name": name, "in": ins, "split": split, "combine": []}
+    nodes.append(nd)
+    if rng.random() < 0.2:
+        # combine one inherited axis (never all inherited axes of a node with an own splitter: D37)
+        root = nodes[0]
+        nd["combine"] = [f"{root['name']}.{root['split'][-1] if len(root['split']) == 1 else root['split'][1]}"]
+    outs = [name] + ([rng.choice(ups)] if rng.random() < 0.25 else [])
+    return {"nodes": nodes, "out": outs, "shape": "wide"}
 
 
 def _gen_dense(rng) -> dict:
